@@ -402,8 +402,12 @@ func c14Gen(r *mon.Rand) []string {
 		for _, o := range order {
 			switch o {
 			case 0:
-				for i, n := 0, mon.Pick(r, []int{1, 1, 1, 1, 2, 0}); i < n; i++ {
-					argv = append(argv, "-w", mon.Pick(r, c14Values))
+				for i, n := 0, mon.Pick(r, []int{1, 1, 1, 1, 2, 2, 0}); i < n; i++ {
+					v := mon.Pick(r, c14Values)
+					if n == 2 && i == 0 && r.Chance(1, 3) {
+						v = "" // an empty -w is still a -w: a second one is a repetition
+					}
+					argv = append(argv, "-w", v)
 				}
 			case 1:
 				// usually one -p; sometimes two or three (every one of them counts: the access types add up)
